@@ -5,13 +5,22 @@ package corr
 // Line protocol
 //
 //	flexenc:  new pt=<0..255> ssrc=<u32>
-//	          batch fec=<numFec 0..110> pkts=<hex,hex,…|->      (each hex = one marshalled RTP packet)
+//	          batch fec=<numFec 0..110> pkts=<hex,hex,…|-> [var=<one digit per packet>]
+//	                                                            (each hex = one marshalled RTP packet)
+//	            var: how the rtp.Packet VALUE handed to EncodeFec expresses the same marshalled bytes
+//	              0 as Unmarshal leaves it   1 padding size only in the deprecated rtp.Packet.PaddingSize
+//	              2 Header.PaddingSize set and a different junk value in rtp.Packet.PaddingSize
+//	              3 junk in the deprecated Raw / PayloadOffset fields, nil vs empty CSRC swapped
+//	            (the marshalled bytes, hence the model's input, are identical for all of them)
 //	            → `nil`                                         EncodeFec returned nil
 //	            → `fecs n=<k>` then k × `fec ssrc= pt= seq= ts= m= x= p= cc= payload=<hex>`
 //	flexint:  new n=<numMedia> f=<numFec> ssrc=<media ssrc> fpt=<fec pt> fssrc=<fec ssrc>
-//	          w pkt=<hex> [reuse=1]
-//	            → one `out ssrc= pt= seq= pkt=<hex of the marshalled packet>` per bottom write, in order
-//	            → `ret n=<int> err=<0|1>`
+//	          w pkt=<hex> [reuse=1] [fail=<i,j,…>]
+//	            → one `out ssrc= pt= seq= pkt=<hex of the marshalled packet> res=<ok|fail>` per call of
+//	              the bottom writer, in order (failed calls included)
+//	            → `ret n=<int> err=<number of injected errors in the returned error, 0 = nil>`
+//	            fail: the bottom writer returns (0, error) on its i-th, j-th … call during this Write
+//	              (0 = the media packet, 1.. = the repair packets that follow it)
 //
 // With reuse=1 the caller owns ONE raw buffer and ONE rtp.Packet object: the packet is unmarshalled
 // into them, written, and the raw buffer and CSRC array are overwritten with 0xEE as soon as Write
@@ -147,7 +156,7 @@ func c14GenEnc(r *Rng, tier string, idx int) Case {
 	ssrc := uint32(r.U64())
 	ts := uint32(r.U64())
 	batch := func(sh c14Shape, n, f int, base uint16) {
-		ops = append(ops, fmt.Sprintf("batch fec=%d pkts=%s", f, c14Batch(r, sh, n, base, ts, ssrc)))
+		ops = append(ops, fmt.Sprintf("batch fec=%d pkts=%s", f, c14Batch(r, sh, n, base, ts, ssrc))+c14DrawVariants(r, n))
 		ts += uint32(r.Intn(100000))
 	}
 	switch cl {
@@ -270,6 +279,73 @@ func c14ParsePkts(s string) ([]rtp.Packet, bool) {
 	return ps, true
 }
 
+// c14ApplyVariants rewrites each packet VALUE into another representation of the same marshalled
+// bytes (checked), as drawn per packet by the generator.
+func c14ApplyVariants(ps []rtp.Packet, vs string) bool {
+	if vs == "" {
+		return true
+	}
+	if len(vs) != len(ps) {
+		return false
+	}
+	for i := range ps {
+		p := &ps[i]
+		want, err := p.Marshal()
+		if err != nil {
+			return false
+		}
+		switch vs[i] {
+		case '0':
+		case '1':
+			if p.Header.Padding {
+				p.PaddingSize = p.Header.PaddingSize //nolint:staticcheck
+				p.Header.PaddingSize = 0
+			}
+		case '2':
+			if p.Header.Padding {
+				p.PaddingSize = p.Header.PaddingSize ^ 0x5A //nolint:staticcheck
+			}
+		case '3':
+			p.Raw = []byte{0xDE, 0xAD, 0xBE, 0xEF} //nolint:staticcheck
+			p.PayloadOffset = 7                    //nolint:staticcheck
+			if len(p.CSRC) == 0 {
+				if p.CSRC == nil {
+					p.CSRC = []uint32{}
+				} else {
+					p.CSRC = nil
+				}
+			}
+		default:
+			return false
+		}
+		got, err := p.Marshal()
+		if err != nil || string(got) != string(want) {
+			return false
+		}
+	}
+	return true
+}
+
+// c14DrawVariants draws the representation of every packet of a batch.
+func c14DrawVariants(r *Rng, n int) string {
+	if n == 0 {
+		return ""
+	}
+	mode := r.Intn(4) // 0: all as parsed, 1: all legacy padding, 2/3: mixed
+	b := make([]byte, n)
+	for i := range b {
+		switch mode {
+		case 0:
+			b[i] = '0'
+		case 1:
+			b[i] = '1'
+		default:
+			b[i] = byte('0' + r.Intn(4))
+		}
+	}
+	return " var=" + string(b)
+}
+
 func b2i(b bool) int {
 	if b {
 		return 1
@@ -300,6 +376,10 @@ func c14RunEnc(t *testing.T, ops []string, o *Out) {
 				o.P("err:noncanonical")
 				continue
 			}
+			if !c14ApplyVariants(ps, m["var"]) {
+				o.P("err:noncanonical")
+				continue
+			}
 			fecs := enc.EncodeFec(ps, uint32(f))
 			if fecs == nil {
 				o.P("nil")
@@ -320,7 +400,8 @@ func c14RunEnc(t *testing.T, ops []string, o *Out) {
 // flexint
 
 func c14GenInt(r *Rng, tier string, idx int) Case {
-	classes := []string{"plain", "shapes", "scribble", "foreign", "gaps", "passthrough", "scribble", "widebatch"}
+	classes := []string{"plain", "shapes", "scribble", "foreign", "gaps", "passthrough", "scribble", "widebatch",
+		"faults", "faults"}
 	cl := classes[idx%len(classes)]
 	n := r.Range(1, 9)
 	f := r.Range(0, n+1)
@@ -331,7 +412,7 @@ func c14GenInt(r *Rng, tier string, idx int) Case {
 	ssrc := uint32(r.U64())
 	fssrc := uint32(r.U64()) | 1
 	fpt := r.Range(1, 127)
-	if cl == "passthrough" {
+	if cl == "passthrough" || (cl == "faults" && r.Chance(1, 8)) {
 		if r.Bool() {
 			fpt = 0
 		} else {
@@ -343,6 +424,10 @@ func c14GenInt(r *Rng, tier string, idx int) Case {
 	switch cl {
 	case "shapes", "scribble":
 		sh = c14Shape{csrcMax: 3, extKind: 1, padMax: 16, payMin: 0, payMax: 40, anyPT: true}
+	case "faults":
+		if r.Bool() {
+			sh = c14Shape{csrcMax: 2, extKind: 1, padMax: 8, payMin: 0, payMax: 24, anyPT: true}
+		}
 	case "widebatch":
 		sh = c14Tiny
 	}
@@ -356,9 +441,40 @@ func c14GenInt(r *Rng, tier string, idx int) Case {
 	if cl == "scribble" {
 		suffix = " reuse=1"
 	}
+	// faults: the next writer fails at drawn calls — on media writes inside a batch, on the media
+	// write that completes a batch, on any subset of the repair-packet writes that follow it, on
+	// packets of other SSRCs and on unconfigured streams.
+	drawFail := func(completing bool) string {
+		pick := func(xs ...string) string { return xs[r.Intn(len(xs))] }
+		if completing {
+			last := fmt.Sprintf("%d", f)
+			var sub []string
+			for k := 0; k <= f; k++ {
+				if r.Chance(1, 3) {
+					sub = append(sub, fmt.Sprintf("%d", k))
+				}
+			}
+			subset := strings.Join(sub, ",")
+			if subset == "" {
+				subset = "0"
+			}
+			return pick("", "", " fail=0", " fail=0", " fail=1", " fail=0,1", " fail="+last, " fail="+subset, " fail=0,"+last)
+		}
+		return pick("", "", "", " fail=0", " fail=1", " fail=0,1", " fail=7")
+	}
 	for i := 0; i < total; i++ {
-		if cl == "foreign" && r.Chance(1, 4) {
-			ops = append(ops, "w pkt="+hex.EncodeToString(c14Packet(r, sh, uint16(r.Intn(65536)), ts, ssrc+1+uint32(r.Intn(3)))))
+		if (cl == "foreign" || cl == "faults") && r.Chance(1, 4) {
+			fs := ""
+			if cl == "faults" {
+				fs = drawFail(false)
+			}
+			ops = append(ops, "w pkt="+hex.EncodeToString(c14Packet(r, sh, uint16(r.Intn(65536)), ts, ssrc+1+uint32(r.Intn(3))))+fs)
+		}
+		if cl == "faults" {
+			suffix = drawFail((i+1)%n == 0)
+			if r.Chance(1, 6) {
+				suffix += " reuse=1"
+			}
 		}
 		if cl == "gaps" && r.Chance(1, 6) {
 			seq += uint16(r.Range(1, 3))
@@ -370,19 +486,56 @@ func c14GenInt(r *Rng, tier string, idx int) Case {
 	return Case{Class: cl, Ops: ops}
 }
 
+// c14InjectedError is what the failing bottom writer returns.
+type c14InjectedError struct{ call int }
+
+func (e *c14InjectedError) Error() string { return fmt.Sprintf("injected failure of call %d", e.call) }
+
+// c14CountInjected counts the injected errors carried by err (through errors.Join / wrapping);
+// a non-nil error that carries none counts as 1000 (never produced by the model).
+func c14CountInjected(err error) int {
+	if err == nil {
+		return 0
+	}
+	if _, ok := err.(*c14InjectedError); ok { //nolint:errorlint
+		return 1
+	}
+	n := 0
+	switch u := err.(type) { //nolint:errorlint
+	case interface{ Unwrap() []error }:
+		for _, e := range u.Unwrap() {
+			n += c14CountInjected(e)
+		}
+	case interface{ Unwrap() error }:
+		n = c14CountInjected(u.Unwrap())
+	}
+	if n == 0 {
+		return 1000
+	}
+	return n
+}
+
 func c14RunInt(t *testing.T, ops []string, o *Out) {
 	var w interceptor.RTPWriter
 	var icpt interceptor.Interceptor
 	raw := make([]byte, 4096) // the caller's single buffer (reuse=1)
 	shared := &rtp.Packet{}   // the caller's single packet object (reuse=1)
+	var failAt map[int]bool // calls of the bottom writer that fail during the current Write
+	call := 0
 	bottom := interceptor.RTPWriterFunc(func(h *rtp.Header, p []byte, _ interceptor.Attributes) (int, error) {
+		idx := call
+		call++
 		buf := make([]byte, h.MarshalSize()+len(p)+int(h.PaddingSize))
 		k, err := rtp.MarshalPacketTo(buf, h, p) //nolint:staticcheck
 		if err != nil {
 			o.P("out err:marshal")
 			return 0, nil
 		}
-		o.P("out ssrc=%d pt=%d seq=%d pkt=%s", h.SSRC, h.PayloadType, h.SequenceNumber, hexs(buf[:k]))
+		if failAt[idx] {
+			o.P("out ssrc=%d pt=%d seq=%d pkt=%s res=fail", h.SSRC, h.PayloadType, h.SequenceNumber, hexs(buf[:k]))
+			return 0, &c14InjectedError{idx}
+		}
+		o.P("out ssrc=%d pt=%d seq=%d pkt=%s res=ok", h.SSRC, h.PayloadType, h.SequenceNumber, hexs(buf[:k]))
 		return len(p), nil
 	})
 	defer func() {
@@ -435,6 +588,11 @@ func c14RunInt(t *testing.T, ops []string, o *Out) {
 				o.P("err:noncanonical")
 				continue
 			}
+			failAt = map[int]bool{}
+			for _, i := range parseInts(m["fail"]) {
+				failAt[i] = true
+			}
+			call = 0
 			var n int
 			if m["reuse"] == "1" && len(b) <= len(raw) {
 				copy(raw, b)
@@ -454,7 +612,7 @@ func c14RunInt(t *testing.T, ops []string, o *Out) {
 				_ = p.Unmarshal(b)
 				n, err = w.Write(&p.Header, p.Payload, nil)
 			}
-			o.P("ret n=%d err=%d", n, b2i(err != nil))
+			o.P("ret n=%d err=%d", n, c14CountInjected(err))
 		default:
 			o.P("bad-op")
 		}
